@@ -138,6 +138,18 @@ def run(chk):
         crash += xc
         chk.coverage["escalation_cases"] = len(extra)
         chk.coverage["escalation_crashes"] = len(xc)
+    # complete audio packets (the c01 generator: every floor/residue/codebook path walked to its end, residue ranges beyond half a block, 3-6
+    # channels with floors in use) over valid set-ups with encoder-like and with wild value ranges — library only, sanitizer build: the random
+    # packets above rarely get past the floor decode
+    from . import c01 as C01, vfcommon as V2
+    pk_cases = []
+    for sane in (True, False):
+        for j, su in enumerate(V2.valid_setups(chk.rng, 70 if chk.tier == "quick" else 700, combos=[(6, 6), (6, 8), (7, 9), (8, 8), (6, 10)], sane=sane, channels=[1, 2, 3, 3, 6])):
+            pk_cases.append(C01.gen_case(chk.rng, 600000 + len(pk_cases), su, 10))
+    pres = vlib.run_harness_only("c01", pk_cases, variant="san", timeout=1800)
+    pc = [dict(r, m=None, rc_m=0, err_m="") for r in pres if r["c"] is None or (r["rc_c"] != 0 and r["err_c"])]
+    crash += pc
+    chk.coverage["complete_packet_cases"] = len(pk_cases)
     dist = {"setup_accepted": 0, "setup_rejected": 0, "init_ok": 0, "init_failed": 0, "pkt_decoded": 0, "pkt_rejected": 0, "samples_out": 0}
     reject_by = {}
     for k, r in enumerate(res):
@@ -174,7 +186,7 @@ def run(chk):
     chk.coverage["leak_checked_cases"] = nleak
     chk.coverage["rule"] = ("type-directed set-up generator (ordered/sparse/single-entry/lattice/explicit books, valid and invalid Huffman trees, floor 0/1, residue 0/1/2, "
                             "submaps, coupling, 1-5 modes, block sizes 64..8192, 1..255 channels) + boundary stream (one field set to 0/max/half/±1, cut at a field boundary) + random bytes; "
-                            "header order permutations/duplicates/wrong b_o_s; init (twice), random/structured packets, trackonly, restart, halfrate, clear twice. "
+                            "header order permutations/duplicates/wrong b_o_s; init (twice), random/structured packets, complete audio packets from the c01 generator over valid set-ups (encoder-like and wild value ranges, 1-6 channels) under the sanitizers, trackonly, restart, halfrate, clear twice. "
                             "Every return code, the full parse dump, window flags and sample counts are compared with the Lean model; everything runs under ASan+UBSan; the same cases run through a counting allocator and the clear calls must return every block whatever was refused. "
                             "distinct = distinct first five answer lines; non-trivial = set-up accepted")
     chk.coverage["distribution"] = dist
